@@ -47,7 +47,18 @@ def sup(op, side):
     return R.left_super(op) if side == "left" else R.right_super(op)
 
 
-def exact_table(ops, sides, dt=DT, system_h=H0):
+def td_props(k, dt=DT):
+    """Half-step propagators of the piecewise-constant H(t) of td_system() for a run that starts at t = 1.7."""
+    return (R.half_props(H0 + 0.4 * (2 * k) * M.SY, dt)[0], R.half_props(H0 + 0.4 * (2 * k + 1) * M.SY, dt)[0])
+
+
+def td_system():
+    # piecewise constant on half steps *counted from the absolute time 1.7*: a run that forgets its start_time samples
+    # a different Hamiltonian
+    return oq.TimeDependentSystem(lambda t: H0 + 0.4 * np.floor((t - 1.7) / (DT / 2) + 1e-9) * M.SY)
+
+
+def exact_table(ops, sides, dt=DT, system_h=H0, props=None):
     """T[t_1, ..., t_n] for t_1 <= ... <= t_n (else NaN): earlier operators inserted (as left/right
     multiplications, first operator first) before the measurement at their step; last operator's expectation."""
     E = env()
@@ -60,7 +71,7 @@ def exact_table(ops, sides, dt=DT, system_h=H0):
         pre = {}
         for t, o, s in zip(first, ops[:-1], sides[:-1]):
             pre[t] = sup(o, s) @ pre[t] if t in pre else sup(o, s)
-        states = R.simulate(RHO0, [E["sigma"]], lambda j, k: E["ks"][k], lambda k: p, N, pre, {})
+        states = R.simulate(RHO0, [E["sigma"]], lambda j, k: E["ks"][k], props or (lambda k: p), N, pre, {})
         for tl in range(max(first) if first else 0, N + 1):
             tab[first + (tl,)] = np.trace(ops[-1] @ states[tl])
     return tab
@@ -254,6 +265,30 @@ def relation_case(start):
     return None
 
 
+def td_case(order):
+    """explicitly time-dependent system with start_time 1.7: the start time must reach the dynamics"""
+    E = env()
+    start = 1.7
+    sides = ["left", "left"] if order == "ordered" else ["right", "left"]
+    ops = [OP_A, OP_B] if order == "ordered" else [OP_B, OP_A]
+    tab = {order: exact_table(ops, sides, props=td_props)}
+    bad = []
+    n = 0
+    specs = [[0, 1, 2, 3], [3, 1, 0, 2], [2, 0], (float(start), float(start + 3 * DT)), (float(start + 2 * DT), float(start))]
+    exps = [[0, 1, 2, 3], [3, 1, 0, 2], [2, 0], [0, 1, 2, 3], [2, 1, 0]]
+    for (sa, ea), (sb, eb) in itertools.product(zip(specs, exps), repeat=2):
+        n += 1
+        try:
+            times, corr = call2(sa, sb, order, start, system=td_system())
+        except Exception as ex:  # noqa
+            bad.append((f"corr2-td|{order}|exception:{type(ex).__name__}", f"a={sa} b={sb}: {ex}"[:150]))
+            continue
+        sig = compare(times, corr, ea, eb, tab, order, start, DT)
+        if sig:
+            bad.append((f"corr2-td|{order}|{sig}", f"time-dependent system, start_time={start}, a={sa} b={sb}: {sig}"))
+    return {"n": n, "bad": bad}
+
+
 def dt_case(kind):
     """dt argument vs dt stored in the PT."""
     E = env()
@@ -410,6 +445,12 @@ def run(tier, seed):
         dres[k] = cls or what
         if cls:
             rep.add(Violation(cls, what, {"part": "dt", "kind": k}))
+    ntd = 0
+    for order in ("ordered", "anti"):
+        r = td_case(order)
+        ntd += r["n"]
+        for cls, what in r["bad"]:
+            rep.add(Violation(cls, what, {"part": "td", "order": order}))
     pres = pmap(pttempo_case, [(s, o) for s in (0.0, 1.7) for o in ("ordered", "anti")], chunksize=1, seed=seed)
     npt = 0
     for (s, o), r in zip([(s, o) for s in (0.0, 1.7) for o in ("ordered", "anti")], pres):
@@ -420,7 +461,7 @@ def run(tier, seed):
     bres = c07_bath.run_bath(tier, seed)
     for v in bres["violations"]:
         rep.add(v)
-    total = len(cases) + len(ncs) + nrel + len(kinds) + npt + bres["evaluations"]
+    total = len(cases) + len(ncs) + nrel + len(kinds) + npt + ntd + bres["evaluations"]
     rep.coverage = {
         "states": len(resolved) + len(ncs),
         "transitions": total,
@@ -463,6 +504,9 @@ def replay(rp):
     if part == "dt":
         cls, what = dt_case(rp["kind"])
         return {"obs": [cls, what], "violation": cls}
+    if part == "td":
+        r = td_case(rp["order"])
+        return {"obs": r["bad"][:5], "violation": r["bad"][0][0] if r["bad"] else None}
     if part == "pttempo":
         r = pttempo_case((rp["start"], rp["order"]))
         return {"obs": r["bad"][:5], "violation": r["bad"][0][0] if r["bad"] else None}
